@@ -70,6 +70,19 @@ def unit_resolve(A, rounds=3):
     """Unit resolution over the hypotheses: a disjunct that is the negation of another hypothesis is dropped, and a
     disjunction left with one disjunct is flattened -- so that a quantified fact guarded by `x is None or ...` becomes a
     top-level (instantiable) hypothesis once `x is not None` is known.  Equivalence-preserving."""
+    def guarded_quantifier(a):
+        if not (z3.is_app_of(a, z3.Z3_OP_OR) or z3.is_app_of(a, z3.Z3_OP_IMPLIES)):
+            return False
+        stack = list(a.children())
+        while stack:
+            t = stack.pop()
+            if z3.is_quantifier(t):
+                return True
+            if z3.is_app(t) and (z3.is_and(t) or z3.is_or(t) or z3.is_app_of(t, z3.Z3_OP_IMPLIES) or z3.is_not(t)):
+                stack.extend(t.children())
+        return False
+    if not any(guarded_quantifier(a) for a in A):
+        return A          # nothing to gain: no quantified fact is hidden behind a guard
     for _ in range(rounds):
         true_ids = {}     # id -> term (the terms are kept alive: z3 reuses the ids of collected ASTs)
         for a in A:
